@@ -634,7 +634,9 @@ class ComputeGraph(MultiDiGraph):
                 if fi_is_vec or fj_is_vec:
                     numerical_blocks.append((i_row, i_row + fi_nrows, j_col, j_col + fj_ncols))
                 else:
-                    d = sp.diff(f_i, yj_sym)
+                    # resolve the derivative rules here already: functions they introduce (`sign`) have to be registered
+                    # with the backend before the function head (and with it the imports) is generated
+                    d = self._resolve_derivatives(sp.diff(f_i, yj_sym))
                     if d != 0:
                         J0_entries[(i_row, j_col)] = d
                 j_col += fj_ncols
@@ -645,9 +647,11 @@ class ComputeGraph(MultiDiGraph):
                 for fresh_sym, _, fj_idx in group:
                     fj_ncols = (fj_idx[1] - fj_idx[0]) if isinstance(fj_idx, tuple) else 1
                     if not fi_is_vec and fj_ncols == 1:
-                        d = sp.diff(f_i, fresh_sym)
+                        d = self._resolve_derivatives(sp.diff(f_i, fresh_sym))
                         if d != 0:
-                            J_hist[d_str][(i_row, j_col)] = d
+                            # the column is the position of the delayed variable in the state vector, not its
+                            # position inside the delay group
+                            J_hist[d_str][(i_row, fj_idx[0] if isinstance(fj_idx, tuple) else fj_idx)] = d
                     j_col += fj_ncols
 
             i_row += fi_nrows
@@ -711,7 +715,8 @@ class ComputeGraph(MultiDiGraph):
 
         # fill non-zero J0 entries
         for (i_r, j_c), d_expr in sorted(J0_entries.items()):
-            d_str_code = self._expr_to_jac_str(d_expr, sym_to_y_idx, {})
+            # (instantaneous entries may still contain delayed factors, e.g. d/dx of x*z(t-tau))
+            d_str_code = self._expr_to_jac_str(d_expr, sym_to_y_idx, past_sym_to_str)
             if d_str_code is None:
                 code_gen.add_code_line(
                     f"# WARNING: could not differentiate J0[{i_r},{j_c}] analytically — entry left as 0")
@@ -1016,9 +1021,31 @@ class ComputeGraph(MultiDiGraph):
             lambda e: isinstance(e, Derivative) and e.expr.func.__name__ == 'sigmoid',
             lambda e: (lambda s: s * (1 - s))(Function('sigmoid')(e.expr.args[0]))
         )
+        # `absv` may already have been renamed to the backend's call name (`abs`)
+        def _sign(e):
+            # fetch `sign` through the backend so that its import / helper definition becomes part of the generated file
+            try:
+                call = self.get_op('sign', shape=())['call']
+            except (KeyError, TypeError):
+                call = 'sign'
+            return Function(call)(e.expr.args[0])
+
         expr = expr.replace(
-            lambda e: isinstance(e, Derivative) and e.expr.func.__name__ == 'absv',
-            lambda e: Function('sign')(e.expr.args[0])
+            lambda e: isinstance(e, Derivative) and e.expr.func.__name__ in ('absv', 'abs'),
+            _sign
+        )
+        # inverse trigonometric functions carry their NumPy names, which sympy does not know how to differentiate
+        expr = expr.replace(
+            lambda e: isinstance(e, Derivative) and e.expr.func.__name__ == 'arctan',
+            lambda e: 1 / (1 + e.expr.args[0] ** 2)
+        )
+        expr = expr.replace(
+            lambda e: isinstance(e, Derivative) and e.expr.func.__name__ == 'arcsin',
+            lambda e: 1 / sp.sqrt(1 - e.expr.args[0] ** 2)
+        )
+        expr = expr.replace(
+            lambda e: isinstance(e, Derivative) and e.expr.func.__name__ == 'arccos',
+            lambda e: -1 / sp.sqrt(1 - e.expr.args[0] ** 2)
         )
         # Sympy wraps chain-rule applications of identity/sigmoid/absv in
         # Subs(Derivative(f(_xi), _xi), _xi, real_arg) because these functions
